@@ -33,6 +33,16 @@ def reading_valued_names(fn: ast.FunctionDef):
             for t in n.targets:
                 if isinstance(t, ast.Name):
                     names.add(t.id)
+        # a collection of readings: values = tuple(self.reading(n) for n in names) / [..] / (a, b)
+        if isinstance(n, ast.Assign):
+            v = n.value
+            if isinstance(v, ast.Call) and isinstance(v.func, ast.Name) and v.func.id in ("tuple", "list") and len(v.args) == 1:
+                v = v.args[0]
+            elts = [v.elt] if isinstance(v, (ast.GeneratorExp, ast.ListComp)) else list(v.elts) if isinstance(v, (ast.Tuple, ast.List)) and v.elts else []
+            if elts and all(isinstance(e, ast.Call) and call_name(e) in READING_SOURCES and call_name(e) not in ("get", "getattr") for e in elts):
+                for t in n.targets:
+                    if isinstance(t, ast.Name):
+                        names.add("*" + t.id)
         if isinstance(n, ast.Assign) and isinstance(n.value, ast.Subscript) and _reads_dict(ast.unparse(n.value)):
             for t in n.targets:
                 if isinstance(t, ast.Name):
@@ -79,6 +89,15 @@ def truthiness_sites(fn: ast.FunctionDef):
                     out.append(v)
         elif isinstance(n, ast.Call) and call_name(n) == "bool" and n.args and is_reading_expr(n.args[0], names):
             out.append(n)
+        elif isinstance(n, ast.Call) and isinstance(n.func, ast.Name) and n.func.id in ("all", "any") and len(n.args) == 1:
+            # all(values) / any(values) over looked-up readings tests each of them by truthiness
+            a = n.args[0]
+            if isinstance(a, ast.Name) and ("*" + a.id) in names:
+                out.append(n)
+            elif isinstance(a, (ast.GeneratorExp, ast.ListComp)) and isinstance(a.elt, (ast.Call, ast.Name)) and (is_reading_expr(a.elt, names) or (isinstance(a.elt, ast.Name) and any(isinstance(g.iter, ast.Name) and ("*" + g.iter.id) in names for g in a.generators))):
+                out.append(n)
+            elif isinstance(a, (ast.Tuple, ast.List)) and a.elts and all(is_reading_expr(e, names) for e in a.elts):
+                out.append(n)
         elif isinstance(n, ast.comprehension):
             for c in n.ifs:
                 boolctx(c)
